@@ -173,8 +173,39 @@ def _observe_tool(case):
                 issues.append(("after-propagating-cancel:" + tag, dict(detail, thrown_at=j)))
             if r["out"] != ["raised", ["user", 750 + j]] and r["out"][0] not in ("stopped", "closed"):
                 issues.append(("propagating-cancel-replaced", {"thrown_at": j, "out": r["out"]}))
+    # fourth pass: the consumer closes the tool early and the users' aclose()s suspend; an exception thrown in at each of
+    # THOSE suspensions must reach that very aclose() (which handles it and carries on) - the library's clean-up must not
+    # intercept, postpone or replace what the loop throws
+    close_throws = []
+    if sum(1 for s in case["srcs"] if s["kind"] == "aobj") >= 1 and not case.get("allsync") \
+            and case["tool"] not in tools.AGGREGATIONS and case["tool"] != "cycle":
+        c3 = copy.deepcopy(case)
+        for s in c3["srcs"]:
+            if s["kind"] == "aobj":
+                s["close_susp"] = 1
+        c3["cons"] = {"fin": "close", "take": 1}
+        world.RESILIENT[0] = False
+        base3 = run_async(c3)
+        world.RESILIENT[0] = True
+        try:
+            for j, tok in enumerate(base3["tokens"]):
+                if not (isinstance(tok, list) and tok and tok[0] == "close"):
+                    continue
+                mark = len(world.SUSP_LOG)
+                exc = Interrupt(700 + j)
+
+                def reply3(i, tok, j=j, exc=exc, st={"k": 0}):
+                    st["k"] += 1
+                    if st["k"] == j + 1:
+                        return ("throw", exc)
+                    return ("send", ("r", tok if not (isinstance(tok, list) and tok and tok[0] == "retry") else tok[1]))
+                r = run_async(c3, reply3)
+                got = [e for e in world.SUSP_LOG[mark:] if e[0] == "thrown-in"]
+                close_throws.append({"at": j, "token": tok, "received": got, "out": r["out"], "same_result": r["out"] == base3["out"]})
+        finally:
+            world.RESILIENT[0] = False
     del world.SUSP_LOG[:]
-    return {"tokens": base["tokens"], "log_issues": issues, "throws": throws,
+    return {"tokens": base["tokens"], "log_issues": issues, "throws": throws, "close_throws": close_throws,
             "async": {"out": base["out"], "vis": base["vis"]}}
 
 
@@ -722,7 +753,7 @@ def judge(case, obs, model):
         issues.append(Issue("oracle", {"exc": obs["exc"]}, "scenario-failed:" + name))
     if case.get("allsync") and obs["tokens"]:
         issues.append(Issue("oracle", {"tokens": obs["tokens"][:5]}, "suspends-with-sync-arguments:" + name))
-    for t in obs["throws"]:
+    for t in list(obs["throws"]) + list(obs.get("close_throws", [])):
         if [e[1:] for e in t["received"]] != [[t["token"], 700 + t["at"]]]:
             issues.append(Issue("oracle", t, "thrown-exception-did-not-reach-awaitable:" + name))
             break
